@@ -5,6 +5,7 @@ import (
 	"go/constant"
 	"go/token"
 	"go/types"
+	"os"
 	"sort"
 	"strings"
 
@@ -17,13 +18,21 @@ func init() {
 
 // reviewedPanicSites: function (short name) -> expression (canonical path / description) -> reason.
 // One symbol + one expression + reason each; printed in evidence.
-var reviewedPanicSites = map[string]map[string]string{}
+var reviewedPanicSites = map[string]map[string]reviewedEntry{}
 
-func reviewed(fn, expr, why string) {
+// reviewed registers a reviewed reason; needs are branch conditions ("<canonical condition>=true|false") the
+// reason depends on: each must hold on a dominating branch edge at every site the entry is used for, otherwise
+// the entry does not apply (the construct is then reported as undischarged: the review has to be redone).
+func reviewed(fn, expr, why string, needs ...string) {
 	if reviewedPanicSites[fn] == nil {
-		reviewedPanicSites[fn] = map[string]string{}
+		reviewedPanicSites[fn] = map[string]reviewedEntry{}
 	}
-	reviewedPanicSites[fn][expr] = why
+	reviewedPanicSites[fn][expr] = reviewedEntry{why: why, needs: needs}
+}
+
+type reviewedEntry struct {
+	why   string
+	needs []string
 }
 
 func (c *Ctx) c19Entries() []*ssa.Function {
@@ -283,13 +292,36 @@ func exprKey(c *Ctx, in ssa.Instruction) string {
 	return in.String()
 }
 
-func (k *c19) isReviewed(f *ssa.Function, expr string) (string, bool) {
+func (k *c19) isReviewed(f *ssa.Function, expr string, site ...ssa.Instruction) (string, bool) {
 	m := reviewedPanicSites[short(f.String())]
 	if m == nil {
 		return "", false
 	}
-	w, ok := m[expr]
-	return w, ok
+	e, ok := m[expr]
+	if !ok {
+		return "", false
+	}
+	if len(e.needs) > 0 {
+		if len(site) == 0 || site[0] == nil || site[0].Block() == nil {
+			return "", false
+		}
+		have := map[string]bool{}
+		for _, cnd := range k.c.condsOf(site[0].Block()) {
+			have[cnd] = true
+		}
+		if os.Getenv("STCHECK_CONDS") != "" {
+			fmt.Printf("CONDS %s :: %s :: %v\n", short(f.String()), expr, k.c.condsOf(site[0].Block()))
+		}
+		for _, n := range e.needs {
+			if !have[n] {
+				k.counts["C19-reviewed-entry-guard-missing"]++
+				return "", false
+			}
+		}
+	} else if os.Getenv("STCHECK_CONDS") != "" && len(site) > 0 && site[0] != nil && site[0].Block() != nil {
+		fmt.Printf("CONDS %s :: %s :: %v\n", short(f.String()), expr, k.c.condsOf(site[0].Block()))
+	}
+	return e.why, true
 }
 
 func runC19(c *Ctx) {
@@ -322,7 +354,11 @@ func runC19(c *Ctx) {
 	var rv []string
 	for fn, m := range reviewedPanicSites {
 		for e, w := range m {
-			rv = append(rv, fn+" :: "+e+" :: "+w)
+			x := fn + " :: " + e + " :: " + w.why
+			if len(w.needs) > 0 {
+				x += " :: requires on a dominating edge: " + strings.Join(w.needs, " ; ")
+			}
+			rv = append(rv, x)
 		}
 	}
 	sort.Strings(rv)
@@ -352,7 +388,7 @@ func (k *c19) assertions(f *ssa.Function) {
 			k.obl("C19.A", short(f.String())+": "+e, true, ta.Pos(), "CONSTRUCTED — "+why)
 			return
 		}
-		why, ok := k.isReviewed(f, e)
+		why, ok := k.isReviewed(f, e, ta)
 		k.obl("C19.A", short(f.String())+": "+e, ok, ta.Pos(), "unchecked type assertion "+e+": "+orUndischarged(why, ok))
 	})
 }
@@ -428,7 +464,7 @@ func (k *c19) nilDerefs(f *ssa.Function) {
 		}
 		ok2, w, _ := c.Guard(f, nil, cmpReject(pp+" == nil rejected", token.EQL, pathIs(pp), pathIs("nil")), func(in ssa.Instruction) bool { return evset[in] })
 		if !ok2 {
-			if why, rv := k.isReviewed(f, "deref "+pp); rv {
+			if why, rv := k.isReviewed(f, "deref "+pp, events[0]); rv {
 				k.obl("C19.N", key, true, events[0].Pos(), "REVIEWED — "+why)
 				return
 			}
@@ -471,7 +507,7 @@ func (k *c19) bounds(f *ssa.Function) {
 			k.obl("C19.B", key, true, in.Pos(), "index is bounded by a dominating comparison with len of the same value (range / loop condition / length check)")
 			return
 		}
-		why, ok := k.isReviewed(f, e)
+		why, ok := k.isReviewed(f, e, in)
 		k.obl("C19.B", key, ok, instrPos(in), "index expression "+e+": "+orUndischargedB(why, ok))
 	})
 }
@@ -542,6 +578,10 @@ func (k *c19) indexDischarged(f *ssa.Function, at ssa.Instruction, X, idx ssa.Va
 		if rp == lenX {
 			return true
 		}
+		// idx < L where L is the smaller of two lengths, one of them len(X): L = φ(len(A), len(B)) chosen by a comparison
+		if k.atMostLen(r, lenX) {
+			return true
+		}
 		// idx < len(A) on a dominating edge and len(A) >= len(X) (or >) rejected before: idx < len(A) <= len(X)
 		if strings.HasPrefix(rp, "len(") {
 			for _, rej := range []token.Token{token.GEQ, token.GTR} {
@@ -553,6 +593,63 @@ func (k *c19) indexDischarged(f *ssa.Function, at ssa.Instruction, X, idx ssa.Va
 		}
 	}
 	return false
+}
+
+// atMostLen: v <= len(X) on every path: v is len(X) itself, or a φ each of whose edges carries len(X) or a
+// value e flowing in only along a branch edge on which  e < len(X)  or  e <= len(X)  holds.
+func (k *c19) atMostLen(v ssa.Value, lenX string) bool {
+	c := k.c
+	if c.Path(v, nil) == lenX {
+		return true
+	}
+	phi, ok := v.(*ssa.Phi)
+	if !ok {
+		return false
+	}
+	implies := func(iff *ssa.If, truth bool, e ssa.Value) bool {
+		bo, isB := iff.Cond.(*ssa.BinOp)
+		if !isB {
+			return false
+		}
+		l, r, op := c.Path(bo.X, nil), c.Path(bo.Y, nil), bo.Op
+		ep := c.Path(e, nil)
+		if l == ep && r == lenX {
+			l, r = r, l
+			op = flipOp(op)
+		}
+		if l != lenX || r != ep {
+			return false
+		}
+		switch op { // relation: len(X) op e is `truth`
+		case token.GTR, token.GEQ:
+			return truth
+		case token.LSS, token.LEQ:
+			return !truth
+		}
+		return false
+	}
+	for i, e := range phi.Edges {
+		if c.Path(e, nil) == lenX {
+			continue
+		}
+		p := phi.Block().Preds[i]
+		okEdge := false
+		// the branch is in the predecessor itself (edge p -> φ block) ...
+		if iff, isIf := p.Instrs[len(p.Instrs)-1].(*ssa.If); isIf && p.Succs[0] != p.Succs[1] {
+			okEdge = implies(iff, p.Succs[0] == phi.Block(), e)
+		}
+		// ... or above a chain of single-predecessor blocks ending in p
+		for x := p; !okEdge && len(x.Preds) == 1; x = x.Preds[0] {
+			d := x.Preds[0]
+			if iff, isIf := d.Instrs[len(d.Instrs)-1].(*ssa.If); isIf && d.Succs[0] != d.Succs[1] {
+				okEdge = implies(iff, d.Succs[0] == x, e)
+			}
+		}
+		if !okEdge {
+			return false
+		}
+	}
+	return len(phi.Edges) > 0
 }
 
 func nonNegative(v ssa.Value) bool {
@@ -734,7 +831,7 @@ func (k *c19) sliceBounds(f *ssa.Function, s *ssa.Slice) {
 			return
 		}
 	}
-	why, ok := k.isReviewed(f, e)
+	why, ok := k.isReviewed(f, e, s)
 	k.obl("C19.B", key, ok, instrPos(s), "slice expression "+e+": "+orUndischargedB(why, ok))
 }
 
@@ -765,7 +862,7 @@ func (k *c19) hashing(f *ssa.Function) {
 					return
 				}
 				e := c.Path(x, nil)
-				why, ok := k.isReviewed(f, e)
+				why, ok := k.isReviewed(f, e, x)
 				k.obl("C19.H", short(f.String())+": "+e, ok, x.Pos(), "== on two interface{} values panics when both hold the same uncomparable dynamic type (map / slice, as decoded JSON objects and arrays are)"+reviewedNote(why, ok))
 			}
 			return
@@ -784,7 +881,7 @@ func (k *c19) hashing(f *ssa.Function) {
 			return
 		}
 		e := c.Path(m, nil) + "[" + c.Path(key, nil) + "]"
-		why, ok := k.isReviewed(f, e)
+		why, ok := k.isReviewed(f, e, in)
 		k.obl("C19.H", short(f.String())+": "+e, ok, instrPos(in), "map with interface-typed key "+mt.Key().String()+" accessed with a key whose dynamic type is not fixed by the code: a JSON object or array as key panics (hash of unhashable type)"+reviewedNote(why, ok))
 	})
 }
@@ -853,7 +950,7 @@ func (k *c19) misc(f *ssa.Function) {
 	forEachInstr(f, func(in ssa.Instruction) {
 		switch x := in.(type) {
 		case *ssa.Panic:
-			why, ok := k.isReviewed(f, "panic")
+			why, ok := k.isReviewed(f, "panic", x)
 			k.obl("C19.P", short(f.String())+": panic", ok, x.Pos(), "explicit panic reachable from an untrusted entry point: "+orUndischarged(why, ok))
 		case *ssa.BinOp:
 			if (x.Op == token.QUO || x.Op == token.REM) && isIntType(x.Type()) {
@@ -862,7 +959,7 @@ func (k *c19) misc(f *ssa.Function) {
 						return
 					}
 				}
-				why, ok := k.isReviewed(f, c.Path(x, nil))
+				why, ok := k.isReviewed(f, c.Path(x, nil), x)
 				k.obl("C19.D", short(f.String())+": "+c.Path(x, nil), ok, x.Pos(), "integer division by a non-constant divisor: "+orUndischarged(why, ok))
 			}
 		case *ssa.MakeSlice:
@@ -873,7 +970,7 @@ func (k *c19) misc(f *ssa.Function) {
 			if strings.HasPrefix(lp, "len(") || strings.HasPrefix(lp, "(len(") && strings.Contains(lp, " + len(") {
 				return // len(...) and sums of lengths are non-negative
 			}
-			why, ok := k.isReviewed(f, "make:"+lp)
+			why, ok := k.isReviewed(f, "make:"+lp, x)
 			k.obl("C19.M", short(f.String())+": make(len="+lp+")", ok, x.Pos(), "make with a computed length (negative panics): "+orUndischarged(why, ok))
 		}
 	})
